@@ -151,13 +151,24 @@ fn main() {
             let p: problem::Problem = serde_json::from_value(v["problem"].clone()).unwrap();
             let (P, A) = (p.P.to_clarabel(), p.A.to_clarabel());
             use clarabel::solver::IPSolver;
-            let q2: Vec<f64> = p.q.iter().enumerate().map(|(k, v)| v * 1.5 + 0.25 * (k as f64 + 1.0)).collect();
+            let q2: Vec<f64> = if args.num("sane", 0) != 0 { p.q.iter().enumerate().map(|(k, _)| 0.5 + k as f64).collect() } else { p.q.iter().enumerate().map(|(k, v)| v * 1.5 + 0.25 * (k as f64 + 1.0)).collect() };
             let mut s1 = clarabel::solver::DefaultSolver::new(&P, &p.q, &A, &p.b, &p.clarabel_cones(), p.settings());
             if args.num("first", 1) != 0 { s1.solve(); println!("first: {:?} {}", s1.solution.status, s1.solution.iterations); }
             s1.update_q(&q2).unwrap();
+            if args.num("k", 9999) != 9999 { s1.settings.max_iter = args.num("k", 0) as u32; }
+            clarabel::verif::set_detail(100); clarabel::verif::start();
             s1.solve();
-            let mut s2 = clarabel::solver::DefaultSolver::new(&P, &q2, &A, &p.b, &p.clarabel_cones(), p.settings());
+            for e in clarabel::verif::take() { if ["LoopTop", "KKTUpdate", "Affine", "Combined", "StepLength", "Scale", "Ckpt"].contains(&e.name) { println!("U {} i={:?} f={:?} v={:?}", e.name, e.i, e.f.iter().take(30).collect::<Vec<_>>(), e.v.iter().map(|v| v.iter().take(2).cloned().collect::<Vec<f64>>()).collect::<Vec<_>>()); } }
+            let mut st2 = p.settings();
+            if args.num("k", 9999) != 9999 { st2.max_iter = args.num("k", 0) as u32; }
+            let mut s2 = clarabel::solver::DefaultSolver::new(&P, &q2, &A, &p.b, &p.clarabel_cones(), st2);
+            clarabel::verif::start();
             s2.solve();
+            for e in clarabel::verif::take() { if ["LoopTop", "KKTUpdate", "Affine", "Combined", "StepLength", "Scale", "Ckpt"].contains(&e.name) { println!("F {} i={:?} f={:?} v={:?}", e.name, e.i, e.f.iter().take(30).collect::<Vec<_>>(), e.v.iter().map(|v| v.iter().take(2).cloned().collect::<Vec<f64>>()).collect::<Vec<_>>()); } }
+            println!("updated info: {:?}", s1.info);
+            println!("fresh   info: {:?}", s2.info);
+            println!("updated vars: tau {:e} kappa {:e} x {:?} s {:?} z {:?}", s1.variables.τ, s1.variables.κ, s1.variables.x, s1.variables.s, s1.variables.z);
+            println!("fresh   vars: tau {:e} kappa {:e} x {:?} s {:?} z {:?}", s2.variables.τ, s2.variables.κ, s2.variables.x, s2.variables.s, s2.variables.z);
             println!("updated: {:?} {} obj {:e}", s1.solution.status, s1.solution.iterations, s1.solution.obj_val);
             println!("fresh  : {:?} {} obj {:e}", s2.solution.status, s2.solution.iterations, s2.solution.obj_val);
             println!("x diff {:e}", s1.solution.x.iter().zip(&s2.solution.x).map(|(a, b)| (a - b).abs()).fold(0.0, f64::max));
